@@ -23,5 +23,5 @@ def run(chk):
     machine.replay_family(chk, cases)
     chk.assumptions += [
         "transcendental functions only at exactly representable points; upper/lower on ASCII only (no Unicode case tables in the model)",
-        "printf: %v %s %q %t %% and %.0f/%.1f/%.2f; width and flags are not modelled yet",
+        "printf: %v %s %q %t %f %% with the - and 0 prefixes, widths up to two digits and one-digit precision; %e, zero padding of negative numbers, precision on %q/%t and on %v of a number, width on composites are left open (unspec) because builtins.md does not settle them",
     ]
